@@ -204,8 +204,14 @@ type Scenario struct {
 	// Lag: keyper at position p runs its main loop only every Lag[p]-th block
 	// (open height H with (H-h0-LagOffset) % Lag[p] == 0) from the eon start until
 	// the DKG is finalized: a slow node that catches up over ranges of several blocks.
-	Lag         map[int]int
-	LagOffset   int
+	Lag       map[int]int
+	LagOffset int
+	// StartLate: the keyper process at position p comes up only StartLate[p]
+	// blocks after the eon start (open height h0+d): it then catches up from
+	// block 1 and its check-in - the encryption key the dealers wait for -
+	// lands d blocks after EonStarted. The other keypers (>= t of them) start
+	// the eon without it.
+	StartLate   map[int]int
 	PlainBudget int // send budget per step under the plain schedule (0 = unlimited): 1 puts a keyper's commitment and evals into different blocks
 	Replicas    int
 }
@@ -223,6 +229,9 @@ func (sc Scenario) String() string {
 	lag := ""
 	if len(sc.Lag) > 0 {
 		lag = fmt.Sprintf(" lag=%v+%d", sc.Lag, sc.LagOffset)
+	}
+	if len(sc.StartLate) > 0 {
+		lag += fmt.Sprintf(" startLate=%v", sc.StartLate)
 	}
 	if sc.PlainBudget > 0 {
 		lag += fmt.Sprintf(" budget=%d", sc.PlainBudget)
@@ -708,6 +717,9 @@ func (r *Run) act(b *byzActor) {
 }
 
 func (r *Run) stalled(pos int, H int64) bool {
+	if d, late := r.sc.StartLate[pos]; late && (r.h0 == 0 || H < r.h0+int64(d)) {
+		return true
+	}
 	if r.h0 == 0 {
 		return false
 	}
@@ -821,11 +833,15 @@ func (r *Run) block(generated bool) {
 // checkedInAndSynced: every keyper's check-in is on chain and every honest
 // keyper has stored all n encryption keys.
 func (r *Run) checkedInAndSynced() bool {
-	if len(r.chainEncKeys()) < r.sc.N {
+	want := r.sc.N - len(r.sc.StartLate)
+	if len(r.chainEncKeys()) < want {
 		return false
 	}
-	for _, n := range r.nodes {
-		if len(n.Srv.Rows("tendermint_encryption_key")) < r.sc.N {
+	for p, n := range r.nodes {
+		if _, late := r.sc.StartLate[p]; late {
+			continue
+		}
+		if len(n.Srv.Rows("tendermint_encryption_key")) < want {
 			return false
 		}
 	}
